@@ -77,9 +77,9 @@ Definition add_dirs (ks : list fskey) (nodes : list (fskey * node)) : list (fske
 Definition fs_makedirs (p : bytes) (mode : Z) (w : fsw) : fsw * ores unit :=
   let k := fs_key p in
   match fs_look k w with
-  | Some _ => (w, OErr errno_EEXIST)
+  | Some _ => (w, OErr (std_oserror errno_EEXIST))
   | None =>
-      if existsb (is_file_at w) (proper_prefixes k) then (w, OErr errno_ENOTDIR)
+      if existsb (is_file_at w) (proper_prefixes k) then (w, OErr (std_oserror errno_ENOTDIR))
       else (mk_fsw (add_dirs (proper_prefixes k ++ [k]) (fs_nodes w)) (fs_fds w) (fs_next_fd w), OOk tt)
   end.
 
@@ -90,20 +90,20 @@ Definition fs_isdir (p : bytes) (w : fsw) : bool :=
    (Linux), ENOENT when there is nothing *)
 Definition fs_unlink (p : bytes) (w : fsw) : fsw * ores unit :=
   let k := fs_key p in
-  if existsb (is_file_at w) (proper_prefixes k) then (w, OErr errno_ENOTDIR)
+  if existsb (is_file_at w) (proper_prefixes k) then (w, OErr (std_oserror errno_ENOTDIR))
   else
     match fs_look k w with
     | Some (NFile _) => (mk_fsw (remove_key k (fs_nodes w)) (fs_fds w) (fs_next_fd w), OOk tt)
-    | Some NDir => (w, OErr errno_EISDIR)
-    | None => (w, OErr errno_ENOENT)
+    | Some NDir => (w, OErr (std_oserror errno_EISDIR))
+    | None => (w, OErr (std_oserror errno_ENOENT))
     end.
 
 Definition fs_open_rb (p : bytes) (w : fsw) : ores bytes :=
   let k := fs_key p in
   match fs_look k w with
   | Some (NFile c) => OOk c
-  | Some NDir => OErr errno_EISDIR
-  | None => OErr (missing_errno k w)
+  | Some NDir => OErr (std_oserror errno_EISDIR)
+  | None => OErr (std_oserror (missing_errno k w))
   end.
 
 (* the directory mkstemp uses when dir is None (tempfile.tempdir, set by the harness) *)
@@ -121,15 +121,15 @@ Definition has_slash (b : bytes) : bool := existsb (N.eqb 47%N) b.
 Definition fs_mkstemp (suffix : bytes) (dir : option bytes) (prefix : bytes) (w : fsw) : fsw * ores (Z * bytes) :=
   let d := match dir with Some x => x | None => fs_tmpdir end in
   let dk := fs_key d in
-  if has_slash prefix || has_slash suffix then (w, OErr errno_ENOENT) else
+  if has_slash prefix || has_slash suffix then (w, OErr (std_oserror errno_ENOENT)) else
   match fs_look dk w with
   | Some NDir =>
       let name := prefix ++ fresh_tag w ++ suffix in
       let k := dk ++ [name] in
       let fd := fs_next_fd w in
       (mk_fsw ((k, NFile []) :: fs_nodes w) ((fd, k) :: fs_fds w) (fd + 1), OOk (fd, d ++ [47%N] ++ name))
-  | Some (NFile _) => (w, OErr errno_ENOTDIR)
-  | None => (w, OErr (missing_errno dk w))
+  | Some (NFile _) => (w, OErr (std_oserror errno_ENOTDIR))
+  | None => (w, OErr (std_oserror (missing_errno dk w)))
   end.
 
 Fixpoint assoc_fd (fd : Z) (l : list (Z * fskey)) : option fskey :=
@@ -144,20 +144,20 @@ Definition fs_fd_key (fd : Z) (w : fsw) : option fskey := assoc_fd fd (fs_fds w)
    [limit] bytes and returns the number transferred (Linux: limit = MAX_RW_COUNT). *)
 Definition fs_write_lim (limit : Z) (fd : Z) (data : bytes) (w : fsw) : fsw * ores Z :=
   match fs_fd_key fd w with
-  | None => (w, OErr errno_EBADF)
+  | None => (w, OErr (std_oserror errno_EBADF))
   | Some k =>
       match fs_look k w with
       | Some (NFile old) =>
           let sent := if zlen data <=? limit then data else btake (Z.to_N limit) data in
           (mk_fsw ((k, NFile (old ++ sent)) :: remove_key k (fs_nodes w)) (fs_fds w) (fs_next_fd w), OOk (zlen sent))
-      | _ => (w, OErr errno_EBADF)
+      | _ => (w, OErr (std_oserror errno_EBADF))
       end
   end.
 Definition fs_write : Z -> bytes -> fsw -> fsw * ores Z := fs_write_lim max_rw_count.
 
 Definition fs_close (fd : Z) (w : fsw) : fsw * ores unit :=
   match fs_fd_key fd w with
-  | None => (w, OErr errno_EBADF)
+  | None => (w, OErr (std_oserror errno_EBADF))
   | Some _ => (mk_fsw (fs_nodes w) (filter (fun e => negb (fst e =? fd)) (fs_fds w)) (fs_next_fd w), OOk tt)
   end.
 
@@ -198,5 +198,5 @@ Definition rec_runtime : runtime fsw rec_hash :=
    os.makedirs / the remove callable.) *)
 Definition script_rt (inj : ores unit) (isd : bool) : runtime unit unit :=
   mk_runtime unit unit (fun _ _ w => (w, inj)) (fun _ _ => isd) (fun _ w => (w, inj))
-    (fun _ _ => OErr errno_ENOENT) (fun _ _ _ w => (w, OErr errno_ENOENT)) (fun _ _ w => (w, OErr errno_EBADF))
-    (fun _ w => (w, OErr errno_EBADF)) (fun _ => OExn ValueError) (fun h _ => h) (fun _ => OExn ValueError).
+    (fun _ _ => OErr (std_oserror errno_ENOENT)) (fun _ _ _ w => (w, OErr (std_oserror errno_ENOENT))) (fun _ _ w => (w, OErr (std_oserror errno_EBADF)))
+    (fun _ w => (w, OErr (std_oserror errno_EBADF))) (fun _ => OExn ValueError) (fun h _ => h) (fun _ => OExn ValueError).
